@@ -280,9 +280,9 @@ def run_kani(pid, unit, tier, seed, keep=False):
         if not hs:
             return out
         # first harness compiles the crate; the others reuse the build
-        results = [engine.run_kani(k, hs[0]["name"], timeout=hs[0].get("timeout", 900), extra=["-Z", "concrete-playback", "--concrete-playback=print"])]
+        # all harnesses start together: cargo serialises the one compilation of the crate on its build lock
         with ThreadPoolExecutor(max_workers=unit.get("jobs", 4)) as ex:
-            results += list(ex.map(lambda h: engine.run_kani(k, h["name"], timeout=h.get("timeout", 900), extra=["-Z", "concrete-playback", "--concrete-playback=print"]), hs[1:]))
+            results = list(ex.map(lambda h: engine.run_kani(k, h["name"], timeout=h.get("timeout", 900), extra=["-Z", "concrete-playback", "--concrete-playback=print"]), hs))
         out["checker_cmd"] = results[0]["cmd"]
         for h, r in zip(hs, results):
             rec = {"harness": h["name"], "bound": h["bound"], "bounded": True, "wall_s": round(r["wall"], 1)}
